@@ -264,6 +264,10 @@ mod tokio_io_impls {
             cx: &mut Context<'_>,
             buf: &[u8],
         ) -> Poll<io::Result<usize>> {
+            if buf.is_empty() {
+                // An empty `Push` frame means EOF to the peer, so never send one
+                return Poll::Ready(Ok(0));
+            }
             ready!(self.as_ref().poll_write_push(cx, buf)).ok_or(BrokenPipe)?;
             trace!("sent a frame");
             Poll::Ready(Ok(buf.len()))
@@ -297,6 +301,10 @@ mod tokio_io_impls {
             for buf in bufs {
                 total_len += buf.len();
                 slices.push(CowBytes::Temporary(buf));
+            }
+            if total_len == 0 {
+                // An empty `Push` frame means EOF to the peer, so never send one
+                return Poll::Ready(Ok(0));
             }
             let Some(()) = ready!(self.poll_obtain_write_permission(cx)) else {
                 return Poll::Ready(Err(io::ErrorKind::BrokenPipe.into()));
